@@ -27,6 +27,10 @@ def _subtree(job):
     idx, (program, start, bound, opcode) = job
     try:
         out = []
+        if opcode:
+            # one forced opcode-granular schedule (the prefix is marked with a leading 'op')
+            recs, _ = sched.execute(program, start[0][1:], opcode=True)
+            return idx, [(start[0], recs)], None
         for prefix, recs in sched.explore(program, bound, opcode=opcode, start=start, limit=4000):
             out.append((prefix, recs))
         return idx, out, None
@@ -49,7 +53,7 @@ def _random_runs(job):
         return idx, None, 'SCHED: %s\n%s' % (e, traceback.format_exc())
 
 
-def explore_all(run, programs, bounds, random_runs=0, opcode_random=False):
+def explore_all(run, programs, bounds, random_runs=0, opcode_random=False, opcode_bound1=()):
     """Returns list of (program name, prefix, records)."""
     jobs, tags = [], []
     results = []
@@ -60,6 +64,13 @@ def explore_all(run, programs, bounds, random_runs=0, opcode_random=False):
         for (prefix, used) in kids:
             jobs.append((prog, (prefix, used), b, False))
             tags.append(name)
+        if name in opcode_bound1:
+            # every schedule with one pre-emption at OPCODE granularity (each first-level alternative is one execution)
+            root, kids = sched.children(prog, 1, opcode=True)
+            for (prefix, used) in kids:
+                if used == 1:
+                    jobs.append((prog, (['op'] + prefix, 1), 1, True))
+                    tags.append(name)
         if random_runs:
             per = max(1, random_runs // (len(programs) * 16))
             for j in range(16):
@@ -109,7 +120,10 @@ def run_property(prop, monitor, tier, seed, programs, bounds_q, bounds_t, rule, 
                      'the loop thread is represented by the calls it makes (_send_pong, _check_auto_ping, _on_close)']
     model_checks(r)
     q = tier == 'quick'
-    results = explore_all(r, programs, bounds_q if q else bounds_t, random_runs=0 if q else 6000, opcode_random=not q)
+    two_thread = [name for name, prog in programs if len(prog['threads']) == 2 and name != 'large-frame-vs-small']
+    results = explore_all(r, programs, bounds_q if q else bounds_t, random_runs=0 if q else 6000, opcode_random=not q,
+                          opcode_bound1=two_thread[:2] if q else two_thread)
+    r.cov['opcode_granular_single_preemption'] = two_thread[:2] if q else two_thread
     stalled = [x for x in results if any(rec.get('k') == 'stall' for rec in x[2])]
     results = [x for x in results if not any(rec.get('k') == 'stall' for rec in x[2])]
     r.cov['scheduler_stalls_discarded'] = len(stalled)
@@ -163,7 +177,9 @@ def run_property(prop, monitor, tier, seed, programs, bounds_q, bounds_t, rule, 
 def replay(prop, monitor, path):
     case = json.load(open(path))['case']
     prefix = case['schedule']
-    if prefix and prefix[0] == 'random':
+    if prefix and prefix[0] == 'op':
+        recs, _ = sched.execute(case['threads'], prefix[1:], opcode=True)
+    elif prefix and prefix[0] == 'random':
         rng = random.Random(prefix[1])
         recs = None
         for i in range(prefix[2] + 1):
